@@ -28,7 +28,7 @@ def adaptive_case(draw, default_args=False):
         scale_w = np.maximum(np.asarray(scale_w), 0.2).tolist()
     return dict(system=sysd, rows=rows, neutral=neutral, objective=obj, scale_w=scale_w,
                 delta_norm1=draw(gens.log_uniform(1e-6, 1e-3)), delta_radius=draw(gens.log_uniform(1e-6, 1e-3)),
-                solver=(None if default_args else draw(st.sampled_from(["CLARABEL", "CLARABEL", "SCS"]))),
+                solver=(None if default_args else draw(st.sampled_from(["CLARABEL", "CLARABEL", "SCS", None]))),
                 entry=draw(st.sampled_from(["function", "estimator"])), regime=regime)
 
 
